@@ -51,6 +51,8 @@ run)
     first=$(echo "$out" | grep -A1 "^VIOLATION" | grep -E "^  " | head -1 | cut -c1-260)
     [ -z "$first" ] && [ $rc -ne 0 ] && first=$(echo "$out" | grep -iE "machinery|error" | head -1 | cut -c1-200)
     echo "$id exit=$rc $n $first" | tee -a "$DST/checks.log"
+    # STOP_AT_FIRST=1: stop at the first check that reports the change (checks.log then lists only the checks run)
+    [ $rc -eq 1 ] && [ -n "${STOP_AT_FIRST:-}" ] && break
   done
   cd $LAB/repo && git checkout -q -- .
   python3 - "$P" "$N" <<'PY'
